@@ -53,8 +53,11 @@ enum Family {
   MixedMultipart,
   Boundary,
   Huge,
+  /// sizes around the physical batch budget with a backlog in the pipe: keeps messages parked in
+  /// the session's carry-over while newer ones wait in the pipe
+  CarryOverBacklog,
 }
-const FAMILIES: [Family; 9] = [Family::Small, Family::BigAmongSmall, Family::CountLimit, Family::LogicalLimit, Family::PhysicalLimit, Family::Hwm1, Family::MixedMultipart, Family::Boundary, Family::Huge];
+const FAMILIES: [Family; 11] = [Family::Small, Family::BigAmongSmall, Family::CountLimit, Family::LogicalLimit, Family::PhysicalLimit, Family::Hwm1, Family::MixedMultipart, Family::Boundary, Family::Huge, Family::CarryOverBacklog, Family::CarryOverBacklog];
 
 #[derive(Clone, Debug)]
 struct Cfg {
@@ -122,6 +125,17 @@ fn gen_cfg(rng: &mut Rng, thorough: bool) -> Cfg {
     Family::Huge => {
       c.n = c.n.min(12);
     }
+    Family::CarryOverBacklog => {
+      c.sndbatch_bytes = Some(1024);
+      c.sndbatch_count = None;
+      c.sndhwm = 256;
+      c.rcvhwm = *rng.pick(&[1, 8, 256]);
+      c.pacing = *rng.pick(&[Pacing::LateStart, Pacing::StallBurst, Pacing::SlowPerMsg]);
+      c.n = c.n.max(80);
+      if c.tr == Transport::Inproc {
+        c.tr = Transport::Tcp;
+      }
+    }
     _ => {}
   }
   if matches!(pair, Pair::ReqRep | Pair::DealerRep) {
@@ -153,6 +167,7 @@ fn frame_lens(rng: &mut Rng, fam: Family, i: u32, n: u32, single_only: bool) -> 
     Family::PhysicalLimit => one(*rng.pick(&[HDR, 100, 120, 127, 128, 129, 1000, 1015, 1024, 1033, 2000])),
     Family::Boundary => one(*rng.pick(&[HDR, 254, 255, 256, 257, 65535, 65536, 65537])),
     Family::Huge => one(*rng.pick(&[HDR, 100_000, 300_000, 1 << 20])),
+    Family::CarryOverBacklog => one(*rng.pick(&[HDR, 100, 100, 900, 1300, 1300, 2100, 2500])),
     Family::MixedMultipart => {
       if single_only || rng.chance(1, 3) {
         one(rng.range(HDR, 300))
